@@ -22,8 +22,8 @@ theorem ignored_ws (s : LexerState) (c : Char) (h : isIgnored s c = true) : isWh
 theorem ruleInfo_matcher {text : List Char} {t : Token} (h : RuleInfo text t) (X : String) (hX : X ≠ "ID")
     (hk : X ∉ LexData.keywords.map (·.2)) (hty : t.type = X) (m : List Char → Option Nat)
     (hm : ruleMatcher X = some m) : m (text.drop t.lexpos) = some t.value.length := by
-  obtain ⟨_, s, r, ⟨_, _, m', _, hm', hn, _⟩, hr⟩ := h
-  have : r = X := ruleType_eq r _ X hX hk (hr ▸ hty)
+  obtain ⟨_, s, r, ap, ⟨_, _, m', _, hm', hn, _⟩, hr⟩ := h
+  have : r = X := ruleFn_eq ap r _ X hX hk (hr ▸ hty)
   subst this
   rw [hm] at hm'
   simp at hm'
@@ -220,9 +220,7 @@ theorem lexCall2_asi {text : List Char} {st : LexState} {r : Option Token} {st' 
       have hkw : ∃ kw, kw ∈ ["break", "continue", "return", "throw"] ∧ String.ofList p.value = kw := by
         have hcls : ∀ (sp K : String), (sp, K) ∈ LexData.keywords → p.type = K → String.ofList p.value = sp := by
           intro sp K hK hty
-          have hm : p.type ∈ "ID" :: kwTypes := by
-            rw [hty]; exact List.mem_cons_of_mem _ (List.mem_map_of_mem (f := (·.2)) hK)
-          exact (id_keyword_iff_aux hri hm sp K hK).mp hty
+          exact keyword_type_exact hri sp K hK hty
         simp only [List.mem_cons, List.mem_nil_iff, or_false] at hmem
         rcases hmem with h | h | h | h
         · exact ⟨"break", by simp, hcls _ _ hb h⟩
